@@ -1,8 +1,210 @@
 import GceTcb.Base.Line
-/- Driver handler for stream `c18` (stub: replaced when the property's model lands). -/
-namespace GceTcb.Drive.C18
-open GceTcb
+import GceTcb.Model.Codecs
+import GceTcb.Model.EventLog
+/-
+Driver handler for stream `c18` (binary codecs).
 
-def handle (_f : Fields) : String := "unimplemented"
+  c18 op=put   s=<struct> <fields> buf=<hex>        Put / PutX into a buffer          → ok:<hex> | err | panic
+  c18 op=dec   s=<struct> b=<hex>                   …FromBytes                         → ok:<fields> | err | panic
+  c18 op=write s=<hob> <fields>                     WriteTo into an empty buffer       → ok:<hex> | err
+  c18 op=create uuid=<hex> data=<hex>               CreateEFIHOBGUID + WriteTo         → ok:<fields>:<hex> | err
+  c18 op=rd    s=<item> kind=buffer|reader b=<hex>  Unmarshal from a reader            → ok:<value> rest=<n> | eof | err
+  c18 op=wr    s=<item> v=<value>                   Marshal                            → ok:<hex> | err
+
+`strictShortRead` selects the model of the size-prefixed event-log readers: `false` = the code as it
+is in the repository (readSizedArray ignores short reads), `true` = after the repair of
+eventlog/unmarshal.go + eventlog/event.go (readSized / io.ReadFull).  ONE-LINE SWITCH.
+-/
+namespace GceTcb.Drive.C18
+open GceTcb GceTcb.Codec GceTcb.Codecs GceTcb.EventLog
+
+/-- the version of eventlog/unmarshal.go this tree has -/
+def strictShortRead : Bool := false
+
+def showOutcome {α : Type} (f : α → String) : Outcome α → String
+  | .ok a => "ok:" ++ f a
+  | .err _ => "err"
+  | .panic _ => "panic"
+
+def hex (b : Bytes) : String := hexEncode b
+
+def showGuid (g : EfiGuid) : String := s!"d1={g.d1},d2={g.d2},d3={g.d3},d4={hex g.d4}"
+def getGuid (f : Fields) : EfiGuid := ⟨f.nat "d1", f.nat "d2", f.nat "d3", f.bytes "d4"⟩
+
+def showTdxSection (s : TdxSection) : String :=
+  s!"{s.dataOffset}:{s.dataSize}:{s.memoryBase}:{s.memorySize}:{s.sectionType}:{s.attributes}"
+
+def parseTdxSection (s : String) : Option TdxSection :=
+  match (s.splitOn ":").map (·.toNat?.getD 0) with
+  | [a, b, c, d, e, g] => some ⟨a, b, c, d, e, g⟩
+  | _ => none
+
+def getTdxDesc (f : Fields) : TdxDescriptor := ⟨f.nat "signature", f.nat "length", f.nat "version", f.nat "count"⟩
+def showTdxDesc (d : TdxDescriptor) : String :=
+  s!"signature={d.signature},length={d.length},version={d.version},count={d.sectionCount}"
+
+def semiList (s : String) : List String := if s == "" then [] else s.splitOn ";"
+
+def handlePut (f : Fields) : String :=
+  let buf := f.bytes "buf"
+  match f.get "s" with
+  | "guid" => showOutcome hex (efiGuidPut (getGuid f) buf)
+  | "uuid" => showOutcome hex (putUUID (f.bytes "u") buf)
+  | "fwentry" => showOutcome hex (fwGuidEntryPut ⟨f.nat "size", f.bytes "guid"⟩ buf)
+  | "sevmeta" => showOutcome hex (sevMetadataPut ⟨f.nat "signature", f.nat "length", f.nat "version", f.nat "sections"⟩ buf)
+  | "sevsec" => showOutcome hex (sevMetadataSectionPut ⟨f.nat "address", f.nat "length", f.nat "kind"⟩ buf)
+  | "mdoff" => showOutcome hex (metadataOffsetPut ⟨f.nat "offset", ⟨f.nat "size", f.bytes "guid"⟩⟩ buf)
+  | "reset" => showOutcome hex (putSevEsResetBlock ⟨f.nat "addr", f.nat "size", f.bytes "guid"⟩ buf)
+  | "tdxdesc" => showOutcome hex (tdxDescriptorPut (getTdxDesc f) buf)
+  | "tdxsec" =>
+    match parseTdxSection (f.get "sec") with
+    | some s => showOutcome hex (tdxSectionPut s buf)
+    | none => "bad-op"
+  | "tdxmeta" => showOutcome hex (tdxMetadataPut ⟨getTdxDesc f, (semiList (f.get "secs")).filterMap parseTdxSection⟩ buf)
+  | "pageinfo" =>
+    showOutcome hex (pageInfoPut ⟨f.bytes "digest", f.bytes "contents", f.nat "length", f.nat "type", f.nat "imi",
+      f.nat "v1", f.nat "v2", f.nat "v3", f.nat "gpa"⟩ buf)
+  | "vmcbseg" => showOutcome hex (putVmcbSeg ⟨f.nat "selector", f.nat "attrib", f.nat "limit", f.nat "base"⟩ buf)
+  | _ => "bad-op"
+
+def handleDec (f : Fields) : String :=
+  let b := f.bytes "b"
+  match f.get "s" with
+  | "guid" => showOutcome showGuid (parseEFIGUID b)
+  | "uuid" => showOutcome (fun u => "u=" ++ hex u) (fromEFIGUID b)
+  | "fwentry" => showOutcome (fun e => s!"size={e.size},guid={hex e.guid}") (fwGuidEntryFromBytes b)
+  | "sevmeta" =>
+    showOutcome (fun s => s!"signature={s.signature},length={s.length},version={s.version},sections={s.sections}")
+      (sevMetadataFromBytes b)
+  | "sevsec" => showOutcome (fun s => s!"address={s.address},length={s.length},kind={s.kind}") (sevMetadataSectionFromBytes b)
+  | "mdoff" => showOutcome (fun m => s!"offset={m.offset},size={m.entry.size},guid={hex m.entry.guid}") (metadataOffsetFromBytes b)
+  | "reset" => showOutcome (fun r => s!"addr={r.addr},size={r.size},guid={hex r.guid}") (sevEsResetBlockFromBytes b)
+  | "tdxdesc" => showOutcome showTdxDesc (tdxDescriptorFromBytes b)
+  | "tdxsec" => showOutcome (fun s => "sec=" ++ showTdxSection s) (tdxSectionFromBytes b)
+  | "tdxmeta" =>
+    showOutcome (fun m => showTdxDesc m.header ++ ",secs=" ++ ";".intercalate (m.sections.map showTdxSection))
+      (tdxMetadataFromBytes b)
+  | _ => "bad-op"
+
+def getHobHeader (f : Fields) : HobHeader := ⟨f.nat "type", f.nat "len"⟩
+
+def handleWrite (f : Fields) : String :=
+  match f.get "s" with
+  | "hobhdr" => "ok:" ++ hex (hobHeaderWriteTo (getHobHeader f))
+  | "handoff" =>
+    "ok:" ++ hex (handoffWriteTo ⟨getHobHeader f, f.nat "version", f.nat "bootmode", f.nat "top", f.nat "bottom",
+      f.nat "freetop", f.nat "freebottom", f.nat "end"⟩)
+  | "resource" =>
+    "ok:" ++ hex (resourceWriteTo ⟨getHobHeader f, getGuid f, f.nat "rtype", f.nat "rattr", f.nat "start", f.nat "rlen"⟩)
+  | "guidhob" => showOutcome hex (guidHobWriteTo ⟨getHobHeader f, getGuid f, f.bytes "data"⟩)
+  | _ => "bad-op"
+
+def handleCreate (f : Fields) : String :=
+  match createEFIHOBGUID (f.bytes "uuid") (f.bytes "data") with
+  | .ok h => s!"ok:type={h.header.hobType},len={h.header.hobLength},{showGuid h.guid},datalen={h.data.length}:" ++
+      showOutcome hex (guidHobWriteTo h)
+  | .err _ => "err"
+  | .panic _ => "panic"
+
+/-! event log values as text -/
+
+def showEvent3 (e : Event3) : String :=
+  "/".intercalate [toString e.platformManufacturerId, hex e.referenceManifestGuid, hex e.platformManufacturerStr,
+    hex e.platformModel, hex e.platformVersion, hex e.firmwareManufacturerStr, toString e.firmwareManufacturerId,
+    hex e.firmwareVersion, toString e.rimLocatorType, hex e.rimLocator, toString e.platformCertLocatorType,
+    hex e.platformCertLocator]
+
+def hexD (s : String) : Bytes := (hexDecode s).getD []
+def natD (s : String) : Nat := s.toNat?.getD 0
+
+def parseEvent3 (s : String) : Option Event3 :=
+  match s.splitOn "/" with
+  | [a, b, c, d, e, g, h, i, j, k, l, m] =>
+    some ⟨natD a, hexD b, hexD c, hexD d, hexD e, hexD g, natD h, hexD i, natD j, hexD k, natD l, hexD m⟩
+  | _ => none
+
+def showData : EventData → String
+  | .raw d => "raw:" ++ hex d
+  | .event3 e => "ev3:" ++ showEvent3 e
+
+def parseData (s : String) : Option EventData :=
+  if s.startsWith "raw:" then some (.raw (hexD (s.drop 4).toString))
+  else if s.startsWith "ev3:" then (parseEvent3 (s.drop 4).toString).map .event3
+  else none
+
+def showDigest (d : Digest) : String := s!"{d.alg}:{hex d.digest}"
+def showDigests (ds : List Digest) : String := if ds.isEmpty then "-" else "+".intercalate (ds.map showDigest)
+
+def parseDigest (s : String) : Option Digest :=
+  match s.splitOn ":" with
+  | [a, d] => some ⟨natD a, hexD d⟩
+  | _ => none
+
+def parseDigests (s : String) : List Digest := if s == "-" || s == "" then [] else (s.splitOn "+").filterMap parseDigest
+
+def showPcrEvent (e : PcrEvent) : String := s!"{e.pcrIndex}|{e.eventType}|{hex e.sha1}|{showData e.data}"
+def showEvent2 (e : Event2) : String := s!"{e.pcrIndex}|{e.eventType}|{showDigests e.digests}|{showData e.data}"
+def showLog (l : Log) : String := showPcrEvent l.header ++ "#" ++ ";".intercalate (l.events.map showEvent2)
+
+def parsePcrEvent (s : String) : Option PcrEvent :=
+  match s.splitOn "|" with
+  | [a, b, c, d] => (parseData d).map fun x => ⟨natD a, natD b, hexD c, x⟩
+  | _ => none
+
+def parseEvent2 (s : String) : Option Event2 :=
+  match s.splitOn "|" with
+  | [a, b, c, d] => (parseData d).map fun x => ⟨natD a, natD b, parseDigests c, x⟩
+  | _ => none
+
+def parseLog (s : String) : Option Log :=
+  match s.splitOn "#" with
+  | [h, es] => (parsePcrEvent h).map fun hd => ⟨hd, (semiList es).filterMap parseEvent2⟩
+  | _ => none
+
+def showRes {α : Type} (f : α → String) (withRest : Bool) : Res α → String
+  | .ok a rest => "ok:" ++ f a ++ (if withRest then s!" rest={rest.length}" else "")
+  | .eof => "eof"
+  | .fail => "err"
+
+def showOpt : Option Bytes → String
+  | some b => "ok:" ++ hex b
+  | none => "err"
+
+def handleRd (f : Fields) : String :=
+  let b := f.bytes "b"
+  let cfg : Cfg := ⟨strictShortRead, if f.get "kind" == "reader" then .reader else .buffer⟩
+  match f.get "s" with
+  | "cstr" => showRes hex true (readCStr cfg b)
+  | "u32arr" => showRes hex true (readU32Array cfg b)
+  | "guid" => showRes hex true (readGuid b)
+  | "digest" => showRes showDigest true (readDigest b)
+  | "pcrevent" => showRes showPcrEvent true (readPcrEvent cfg b)
+  | "event2" => showRes showEvent2 true (readEvent2 cfg b)
+  | "log" => showRes showLog false (readLog cfg b)
+  | "event3" => showRes showEvent3 false (unmarshalEvent3 strictShortRead b)
+  | _ => "bad-op"
+
+def handleWr (f : Fields) : String :=
+  let v := f.get "v"
+  match f.get "s" with
+  | "cstr" => showOpt (writeCStr (hexD v))
+  | "u32arr" => showOpt (writeU32Array (hexD v))
+  | "guid" => "ok:" ++ hex (writeGuid (hexD v))
+  | "digest" => match parseDigest v with | some d => showOpt (writeDigest d) | none => "bad-op"
+  | "pcrevent" => match parsePcrEvent v with | some e => showOpt (writePcrEvent e) | none => "bad-op"
+  | "event2" => match parseEvent2 v with | some e => showOpt (writeEvent2 e) | none => "bad-op"
+  | "log" => match parseLog v with | some l => showOpt (writeLog l) | none => "bad-op"
+  | "event3" => match parseEvent3 v with | some e => showOpt (marshalEvent3 e) | none => "bad-op"
+  | _ => "bad-op"
+
+def handle (f : Fields) : String :=
+  match f.get "op" with
+  | "put" => handlePut f
+  | "dec" => handleDec f
+  | "write" => handleWrite f
+  | "create" => handleCreate f
+  | "rd" => handleRd f
+  | "wr" => handleWr f
+  | _ => "bad-op"
 
 end GceTcb.Drive.C18
